@@ -269,3 +269,59 @@ Definition tree_merge_to (c : cat) (multi : bool) (src dst : list item) (w : wor
     let st := tmerge c multi src dst w shape in (t_stat st, tsrc_items st, t_dst st, t_w st)
   else
     let st := lmerge c multi src dst w shape in (l_stat st, lsrc_items st, ldst_items st, l_w st).
+
+(* ---------------------------------------------------------------- Set::Add(pos, ExtractedItem&&) (HashSet.h:837-847, TreeSet.h:809-819):
+   no key lookup -- the position was computed by the caller --, pvAdd prepares the place (may allocate), the creator relocates
+   the item out of the holder through extItem.Remove *)
+Definition add_holder (c : cat) (w : world) (dst : list item) (h : option item) : world * list item * option item * status :=
+  match h with
+  | None => (w, dst, None, Failed)                       (* MOMO_CHECK(mHasItem) in SetExtractedItem::Remove *)
+  | Some x =>
+    match step_alloc w with
+    | None => (fail_alloc w, dst, h, Failed)
+    | Some w1 =>
+      match relocate c w1 x with
+      | (w2, None) => (w2, dst, h, Failed)
+      | (w2, Some e) => (w2, dst ++ [e], None, Finished)
+      end
+    end
+  end.
+
+(* stdish set / unordered_set insert(hint, node_type&&) as fixed in 9f37105 (set.h:466-473):
+     if (node.empty()) return end();
+     if (!pvCheckHint(hint, node.value())) return mTreeSet.Insert(std::move(extractedItem)).position;
+     return mTreeSet.Add(hint, std::move(extractedItem));
+   hint_ok = the result of pvCheckHint (its comparisons are a fallible functor step); a valid hint for a unique set implies the
+   key is absent *)
+Definition std_insert_hint (c : cat) (multi : bool) (w : world) (dst : list item) (h : option item) (hint_ok : bool)
+  : world * list item * option item * status :=
+  match h with
+  | None => (w, dst, None, Finished)
+  | Some x =>
+    match step_func w with
+    | None => (fail_func w, dst, h, Failed)
+    | Some w1 => if hint_ok then add_holder c w1 dst h else insert_holder c multi w1 dst h
+    end
+  end.
+
+(* the same function BEFORE 9f37105: `return insert(std::move(node)).position;` -- a refused node was moved into the temporary
+   insert_return_type (one more relocation of the held item) and destroyed with it *)
+Definition std_insert_hint_old (c : cat) (multi : bool) (w : world) (dst : list item) (h : option item) (hint_ok : bool)
+  : world * list item * option item * status :=
+  match h with
+  | None => (w, dst, None, Finished)
+  | Some x =>
+    match step_func w with
+    | None => (fail_func w, dst, h, Failed)
+    | Some w1 =>
+      if hint_ok then add_holder c w1 dst h
+      else match insert_holder c multi w1 dst h with
+           | (w2, dst', Some y, Finished) =>
+             (* not inserted: node_type(std::move(node)) into the result, destroyed at the end of the full expression *)
+             (match relocate c w2 y with
+              | (w3, Some e) => (dtor w3 e, dst', None, Finished)
+              | (w3, None) => (w3, dst', Some y, Failed) end)
+           | r => r
+           end
+    end
+  end.
